@@ -31,6 +31,30 @@ CHECKS = {
  'C16': ('exploration', 'property-based testing of generated invalid invocations; exit-status and whole-sandbox snapshot-equality oracle',
          '16 rejection classes x position x destination state x driver x flag noise: each must exit non-zero and leave the sandbox byte-and-metadata identical.',
          'clap-level rejections and main.rs validations are both covered; --glob with an unmatched literal is excluded (documented open question in the code)', '6/C16'),
+ 'C08': ('exploration', 'property-based testing with generated collisions, partly under the ptrace priority scheduler; snapshot-equality oracle on every pre-existing entry plus exit-status oracle',
+         'Generated sources copied with -n into destinations holding colliding files, directories, valid and dangling symlinks, fifos and sockets; every pre-existing entry anywhere must be unchanged, nothing may appear outside the destination, and a collision of a file/link/special source must end in a non-zero status, also under walker-first/workers-first/starved-worker schedules.',
+         'collisions below an already colliding directory are unreachable (xcp aborts at the directory) and reported as a separate shadowed class', '6/C08'),
+ 'C09': ('exploration', 'stateful model-based property testing of histories (proptest vec of steps + interpreter), with kill-point injection under the supervisor',
+         'Generated histories of repeated copies with changing contents and backup modes over name sets with prefix relations, backup-like and non-UTF-8 names and pre-seeded backup numbers; after every step the version-preservation invariants are checked against the directory before/after; a sub-check kills xcp around a generated mutating call inside a numbered step.',
+         'name sets where one source file is named like a numbered backup of another source file are excluded as inherently ambiguous', '6/C09'),
+ 'C11': ('exploration', 'property-based testing over generated sparse layouts; allocation-bound and hole-independent content-hash oracle',
+         'Generated hole/data layouts (up to 100 extents, up to ~1 GiB apparent size) copied with both drivers and block sizes; destination allocation must stay within a slack that is smaller than the smallest generated hole.',
+         'ext4 with SEEK_HOLE/FIEMAP, probed at start', '6/C11'),
+ 'C13': ('exploration', 'model-based property testing: generated link graphs vs a resolved-tree reference model',
+         'Generated trees with links to files, directories, chains up to and beyond the kernel limit, cycles, ancestors and dangling links, copied with -L: unresolvable => non-zero exit; otherwise no link remains and the destination equals the resolved tree.',
+         'links that leave the sandbox are not generated (targets outside the source stay inside the sandbox)', '6/C13'),
+ 'C14': ('exploration', 'property-based testing over generated device nodes under the ptrace supervisor; lstat-equality and trace (never opened) oracle',
+         'Generated fifos, sockets, char and block devices (all majors/minors, modes, umasks, destination states, -n) copied alone or inside trees; node type, device number and mode must match, block devices must fail, and the syscall log must not contain an open of a special source.',
+         'requires CAP_MKNOD (uid 0 here); nodes are never opened', '6/C14'),
+ 'C15': ('fault_enumeration', 'ioctl-level fault injection / success emulation by the ptrace supervisor over generated trees; predicates over the syscall log, exit status and bytes',
+         'Every reflink mode is run against every FICLONE answer (real, each unsupported errno, hard error, emulated success for all or half of the files) and judged by which system calls were issued per destination file, the exit status and byte equality.',
+         'clone success is emulated (no reflink-capable filesystem in the sandbox)', '6/C15'),
+ 'C18': ('exploration', 'schedule exploration under the ptrace priority scheduler; per-file ordering predicate over the syscall log',
+         'Generated multi-block trees copied with --fsync under generated schedules and worker counts (and partially emulated clones); on every exit-0 run each destination file must see a successful fsync after the return of its last data-changing call.',
+         'ordering is observed at system-call entry/exit stamps', '6/C18'),
+ 'C20': ('exploration', 'generated large trees under RLIMIT_NOFILE with adversarial ptrace schedules; exit-status + model oracle, exact descriptor peak reported',
+         'Trees of 600-3000 (thorough 30000) files copied under a 1024-descriptor limit, unsupervised and with the walker/dispatcher prioritised over the pool so that queues fill; the run must succeed with a complete tree. The exact peak of open descriptors per (driver, workers, N) is reported.',
+         'the peak is reported, not judged (schedule dependent)', '6/C20'),
 }
 
 NA_REASON = 'check not built yet (work in progress in this session)'
